@@ -16,61 +16,71 @@
 (***************************************************************************)
 EXTENDS Naturals, Sequences, FiniteSets
 
-CONSTANTS NWorkers, QCap, MaxWrites
+CONSTANTS NWorkers, QCap, MaxWrites,
+          SendUnderLock   \* TRUE: the rotating worker still holds the journal mutex while it sends (not the code)
 
 VARIABLES q,        \* the queue: Seq of "Rotate" | "Flush" | "Compact"
-          wk,       \* [1..NWorkers -> "idle" | "sendFlush" | "flushing" | "sendCompact"]
+          wk,       \* [1..NWorkers -> "idle" | "needLockR" | "needLockF" | "sendFlush" | "flushing" | "sendCompact"]
           sealed,   \* sealed memtables waiting for their flush
           tasks,    \* queued flush tasks
           big,      \* the active memtable is over its size limit (a rotation is due)
-          nw        \* writes performed
-vars == <<q, wk, sealed, tasks, big, nw>>
+          nw,       \* writes performed
+          lock      \* holder of the journal mutex (0 = free): writers take it for every write, the
+                    \* rotating worker takes it to seal the memtable
+vars == <<q, wk, sealed, tasks, big, nw, lock>>
 W == 1..NWorkers
 
-Init == q = <<>> /\ wk = [w \in W |-> "idle"] /\ sealed = 0 /\ tasks = 0 /\ big = FALSE /\ nw = 0
+Init == q = <<>> /\ wk = [w \in W |-> "idle"] /\ sealed = 0 /\ tasks = 0 /\ big = FALSE /\ nw = 0 /\ lock = 0
 
 \* a write: stalls while 4 sealed memtables wait; over the limit it requests a rotation
-Write == /\ nw < MaxWrites /\ sealed < 4
+Write == /\ nw < MaxWrites /\ sealed < 4 /\ lock = 0
          /\ nw' = nw + 1 /\ big' = TRUE
          /\ q' = IF Len(q) < QCap THEN Append(q, "Rotate") ELSE q      \* try_send
-         /\ UNCHANGED <<wk, sealed, tasks>>
+         /\ UNCHANGED <<wk, sealed, tasks, lock>>
 
+\* a worker takes the next message; a RotateMemtable and a Flush message both start by taking the
+\* journal mutex (to seal the memtable / to check whether the journal has to be rotated)
 Recv(w) ==
     /\ wk[w] = "idle" /\ q # <<>>
     /\ LET m == Head(q) IN
        /\ q' = Tail(q)
-       /\ CASE m = "Rotate" ->
-                 \* stale request (memtable already rotated): nothing to do
-                 IF big THEN /\ sealed' = sealed + 1 /\ tasks' = tasks + 1 /\ big' = FALSE
-                             /\ wk' = [wk EXCEPT ![w] = "sendFlush"]
-                        ELSE UNCHANGED <<sealed, tasks, big, wk>>
-            [] m = "Flush" ->
-                 IF tasks > 0 THEN /\ tasks' = tasks - 1 /\ wk' = [wk EXCEPT ![w] = "flushing"]
-                                   /\ UNCHANGED <<sealed, big>>
-                              ELSE UNCHANGED <<sealed, tasks, big, wk>>
-            [] m = "Compact" ->
-                 IF NWorkers > 1 /\ w = 1 THEN wk' = [wk EXCEPT ![w] = "sendCompact"] /\ UNCHANGED <<sealed, tasks, big>>
-                                         ELSE UNCHANGED <<sealed, tasks, big, wk>>
-    /\ UNCHANGED nw
+       /\ wk' = [wk EXCEPT ![w] = CASE m = "Rotate" -> "needLockR"
+                                     [] m = "Flush" -> "needLockF"
+                                     [] m = "Compact" -> IF NWorkers > 1 /\ w = 1 THEN "sendCompact" ELSE "idle"]
+    /\ UNCHANGED <<sealed, tasks, big, nw, lock>>
+
+Acquire(w) ==
+    /\ wk[w] \in {"needLockR", "needLockF"} /\ lock = 0
+    /\ IF wk[w] = "needLockR"
+       THEN \* stale request (memtable already rotated): nothing to do
+            IF big THEN /\ sealed' = sealed + 1 /\ tasks' = tasks + 1 /\ big' = FALSE
+                        /\ wk' = [wk EXCEPT ![w] = "sendFlush"]
+                        /\ lock' = IF SendUnderLock THEN w ELSE 0
+                   ELSE /\ wk' = [wk EXCEPT ![w] = "idle"] /\ UNCHANGED <<sealed, tasks, big, lock>>
+       ELSE IF tasks > 0 THEN /\ tasks' = tasks - 1 /\ wk' = [wk EXCEPT ![w] = "flushing"]
+                              /\ UNCHANGED <<sealed, big, lock>>
+                         ELSE /\ wk' = [wk EXCEPT ![w] = "idle"] /\ UNCHANGED <<sealed, tasks, big, lock>>
+    /\ UNCHANGED <<q, nw>>
 
 \* blocking send(Flush) of the rotating worker
 SendFlush(w) == /\ wk[w] = "sendFlush" /\ Len(q) < QCap
                 /\ q' = Append(q, "Flush") /\ wk' = [wk EXCEPT ![w] = "idle"]
+                /\ lock' = IF lock = w THEN 0 ELSE lock
                 /\ UNCHANGED <<sealed, tasks, big, nw>>
 \* the flush is done: the sealed memtable is gone; compaction requests by try_send
 FlushDone(w) == /\ wk[w] = "flushing"
                 /\ sealed' = sealed - 1
                 /\ q' = IF Len(q) < QCap THEN Append(q, "Compact") ELSE q
                 /\ wk' = [wk EXCEPT ![w] = "idle"]
-                /\ UNCHANGED <<tasks, big, nw>>
+                /\ UNCHANGED <<tasks, big, nw, lock>>
 \* worker 0 hands a Compact message back (blocking send)
 SendCompact(w) == /\ wk[w] = "sendCompact" /\ Len(q) < QCap
                   /\ q' = Append(q, "Compact") /\ wk' = [wk EXCEPT ![w] = "idle"]
-                  /\ UNCHANGED <<sealed, tasks, big, nw>>
+                  /\ UNCHANGED <<sealed, tasks, big, nw, lock>>
 
-Next == Write \/ \E w \in W : Recv(w) \/ SendFlush(w) \/ FlushDone(w) \/ SendCompact(w)
+Next == Write \/ \E w \in W : Recv(w) \/ Acquire(w) \/ SendFlush(w) \/ FlushDone(w) \/ SendCompact(w)
 Spec == Init /\ [][Next]_vars
-FairSpec == Spec /\ \A w \in W : WF_vars(Recv(w) \/ SendFlush(w) \/ FlushDone(w) \/ SendCompact(w))
+FairSpec == Spec /\ \A w \in W : WF_vars(Recv(w) \/ Acquire(w) \/ SendFlush(w) \/ FlushDone(w) \/ SendCompact(w))
 
 \* background work never stops for ever: a sealed memtable is eventually flushed
 SealedEventuallyFlushed == (sealed > 0) ~> (sealed = 0)
@@ -78,4 +88,14 @@ SealedEventuallyFlushed == (sealed > 0) ~> (sealed = 0)
 AllBlocked == /\ \A w \in W : wk[w] \in {"sendFlush", "sendCompact"}
               /\ Len(q) = QCap
 NoSelfDeadlock == ~AllBlocked
+\* C14 ("the write stall mechanisms always let writers proceed eventually"): no thread waits for
+\* room in the queue while it holds the journal mutex - a writer's progress never depends on the
+\* worker queue
+NoSendUnderLock == \A w \in W : wk[w] \in {"sendFlush", "sendCompact"} => lock # w
+\* ... in particular, when every worker is blocked on the full queue (12.3, O1), writers still
+\* get the journal mutex
+\* (a worker that waits for the mutex does not receive either)
+NobodyReceives == /\ Len(q) = QCap
+                  /\ \A w \in W : wk[w] \in {"sendFlush", "sendCompact", "needLockR", "needLockF"}
+WritersNeverStuck == NobodyReceives => lock = 0
 =============================================================================
